@@ -80,6 +80,11 @@ CHECKS["C04"] = dict(cat=MC, engine="E1 xsched (buffered relay, in memory) + E4 
    text="In memory: 10 close patterns x 2 upstream codecs x back-pressure; the explorer places EOF and abort at every position: EOF reaches the peer only after all earlier bytes, the opposite direction keeps flowing (late messages after the peer's EOF), both sockets closed and Terminated / ErrorOccured recorded, no lingering relay after an abort. Real sockets: every valid sequence over {client write, origin write, client half-close, origin half-close} with terminal {none, client RST, origin RST, client close, origin close}, lock-step, useSplice true and false; observations must match the TCP reference and be identical in both modes; every connection must end up in /api/history with a terminal state.",
    note="Kernel scheduling uncontrolled in the E4 part (4 s one-sided deadlines). TLS variants are not covered.",
    ref="DESIGN.md §3 C04")
+CHECKS["C13"] = dict(cat=MC, engine="E2 exhaustive traffic-pattern enumeration on the real copy_bidi (real clock) + E4 real binary",
+   technique="exhaustive enumeration of all 3^7 (thorough 3^8) half-second traffic patterns x T in {0,1,2} x half-close pre-state on the real copy_bidi with harness-side timestamps; real-binary grid timeouts.idle x timeouts.udp x 6 tunnel kinds read back through /api/live, plus close timing",
+   text="Every traffic pattern over 7 (8) half-second slots with alphabet {silent, client byte, origin byte}, for T = 0, 1, 2 s and for open / client-half-closed / origin-half-closed tunnels runs concurrently on the real copy_bidi: a tunnel is never closed for idleness less than T after a byte was sent (hard bound), is closed at most T + 1 s ticker + 1.5 s slack after the last byte, and T = 0 never closes. Real binary: the period reported by /api/live for http, socks5, reverse-tcp, socks5-UDP, reverse-UDP and http-UDP tunnels equals the configured (or default) value for every grid cell; silent tunnels with T=2 close in time, with T=0 stay.",
+   note="Real clock (ContextStatistics uses SystemTime): bounds are one-sided so load only delays a verdict. Periods other than 0/1/2 s only through the wiring grid. QUIC and TPROXY listeners not in the wiring grid.",
+   ref="DESIGN.md §3 C13")
 NOT_YET = "check not built yet in this revision (see DESIGN.md §3 for the planned model-checking design)"
 def main():
     checks = []
@@ -115,7 +120,7 @@ def main():
         "engines": [
             {"name": "E1 xsched", "path": "harness/src/verif/xsched.rs", "serves_properties": ["C01", "C04", "C06", "C14", "C15", "C16"], "kind_free_text": "stateless deviation-bounded DFS over task schedules and scripted environment answers of real async code"},
             {"name": "E3 loom", "path": "harness/src/verif/c17.rs", "serves_properties": ["C17"], "kind_free_text": "loom exhaustive interleavings of the real load balancer (feature loomlb => cfg(redproxy_verif_loom))"},
-            {"name": "E4 xnet", "path": "e4/", "serves_properties": ["C04", "C06", "C15", "C18"], "kind_free_text": "real-socket script/fault enumeration against the real binary (Python drivers, kernel scheduling uncontrolled)"},
+            {"name": "E4 xnet", "path": "e4/", "serves_properties": ["C04", "C06", "C13", "C15", "C18"], "kind_free_text": "real-socket script/fault enumeration against the real binary (Python drivers, kernel scheduling uncontrolled)"},
             {"name": "E2 xseq", "path": "harness/src/verif/", "serves_properties": [p for p in CHECKS], "kind_free_text": "bounded-exhaustive operation-sequence / input-shape enumeration on the real code vs reference model"},
         ],
         "checks": checks,
